@@ -40,8 +40,12 @@ THEOREMS = [
     'C06Regex.binOp_regex', 'C06Regex.unaryOp_regex', 'C06Regex.groupOpen_regex', 'C06Regex.close_regex', 'C06Regex.comma_regex',
     'C06Regex.variable_regex', 'C06Regex.funcOpen_regex', 'C06Regex.parseExprLW_ex', 'C06Regex.exS_eq_rxS',
     'C06Regex.parseExpr_is_regex_driven_partial', 'C06Regex.parseScript_fully_regex_driven_partial',
+    'C06Regex.sub1_escQ', 'C06Regex.strBody_isSome', 'C06Regex.str_loop', 'C06Regex.strBody_spec', 'C06Regex.string_regex_q',
+    'C06Regex.string_regex', 'C06Regex.stringDouble_regex', 'C06Regex.string_patterns', 'C06Regex.bracketBody_isSome', 'C06Regex.br_loop',
+    'C06Regex.br_group', 'C06Regex.br_outer', 'C06Regex.bracketBody_spec', 'C06Regex.variableEx_regex', 'C06Regex.exS_eq_rxS2',
+    'C06Regex.parseExpr_is_regex_driven_partial2', 'C06Regex.parseScript_fully_regex_driven_partial2',
 ]
-LEAN_TARGETS = ['BareProofs.C06RegexPins', 'BareProofs.C06Regex', 'BareProofs.C06Regex2', 'BareProofs.C06Regex3', 'BareProofs.C06Regex4', 'BareProofs.C06Regex5', 'BareProofs.C06Regex6', 'BareProofs.C06Regex7']
+LEAN_TARGETS = ['BareProofs.C06RegexPins', 'BareProofs.C06Regex', 'BareProofs.C06Regex2', 'BareProofs.C06Regex3', 'BareProofs.C06Regex4', 'BareProofs.C06Regex5', 'BareProofs.C06Regex6', 'BareProofs.C06Regex7', 'BareProofs.C06Regex8']
 EXTRA_TARGETS = ['drv_c06x']
 GEN = ['Regex']
 
